@@ -118,3 +118,57 @@ func c08InFlightAtFailure(rep *Report) {
 		}
 	}
 }
+
+// c08NarrowClosureArgs: the callee invokes a closure with 300 and 70000; the caller's function declares int8 and
+// uint16. Whatever the library does with numbers that do not fit (it wraps them), it does the SAME under every link
+// API and serializer — the outcome may not depend on the dynamic type the generic decoder produced.
+func c08NarrowOne[T any](codec Codec[T], api string) (string, error) {
+	p, err := NewPair(codec, PairOpts{API: api})
+	if err != nil {
+		return "", err
+	}
+	defer p.Shutdown()
+	ra, _, _ := p.A.AnyRemote()
+	seen := ""
+	r := withWatchdog(func() (any, error) {
+		return ra.Narrow(context.Background(), func(ctx context.Context, level int8, count uint16) (string, error) {
+			seen = fmt.Sprintf("cb(%d,%d)", level, count)
+			return seen, nil
+		})
+	})
+	if !r.ok {
+		return "<the call did not return>", nil
+	}
+	return fmt.Sprintf("result=%v err=%v closure saw %s", r.val, r.err, seen), nil
+}
+
+func c08NarrowClosureArgs(rep *Report) {
+	var base, baseCfg string
+	for _, api := range apis() {
+		cfgs := []struct {
+			name string
+			run  func() (string, error)
+		}{
+			{api + "/json-raw", func() (string, error) { return c08NarrowOne(jsonRaw(), api) }},
+			{api + "/json-bytes", func() (string, error) { return c08NarrowOne(jsonBytes(), api) }},
+			{api + "/cbor-raw", func() (string, error) { return c08NarrowOne(cborRaw(), api) }},
+		}
+		for _, c := range cfgs {
+			rep.Evaluations++
+			rep.Distinct++
+			desc := map[string]any{"suite": "C08-narrow-closure-arguments", "config": c.name}
+			got, err := c.run()
+			if err != nil {
+				rep.addViolation("property", "C08:narrow:setup:"+c.name, err.Error(), desc)
+				continue
+			}
+			if base == "" {
+				base, baseCfg = got, c.name
+				continue
+			}
+			if got != base {
+				rep.addViolation("property", "C08:narrow-closure-args", fmt.Sprintf("a closure declared (int8, uint16) invoked by the callee with (300, 70000): %q under %s but %q under %s — the outcome depends on the serializer", base, baseCfg, got, c.name), desc)
+			}
+		}
+	}
+}
